@@ -611,7 +611,7 @@ variant("closelisteners-helper",
 
 	connDone := make(chan struct{})"""),
   ("server.go", "// Shutdown gracefully shuts down the server without interrupting any", "// closeListeners closes every listener and returns the first error. The caller holds s.locker.\nfunc (s *Server) closeListeners() error {\n	var err error\n	for _, l := range s.listeners {\n		if lerr := l.Close(); lerr != nil && err == nil {\n			err = lerr\n		}\n	}\n	return err\n}\n\n// Shutdown gracefully shuts down the server without interrupting any"))
-alarming("readerror-helper",
+variant("readerror-helper",
   ("server.go", """		} else {
 			if err == io.EOF || errors.Is(err, net.ErrClosed) {
 				return nil
